@@ -17,6 +17,7 @@ CONSTANTS Workload,    \* sequence of [side, ch, cid, len]: messages submitted, 
           Reorder,     \* may the network reorder (FALSE: only losses and duplicates of the newest packet)
           RecvAnywhere, \* application receives between any two steps (otherwise only in the good rounds)
           PropsOn,     \* sequence of property ids the observer evaluates
+          ExportAll,   \* export a path for every state (TRUE) or only for the finished behaviours (FALSE, large configurations)
           Export       \* keep a history of steps and predicted events (simulation / tiny scopes only)
 
 VARIABLES w, obs, ctl, hist
@@ -138,10 +139,11 @@ NoFlag == obs.flags = {}
 Done == ctl.healed /\ ctl.rounds = HealRounds
 
 \* Schedule export.  hist is carried in the state but is not part of its identity (VIEW): TLC visits every
-\* distinct (w, obs, ctl) once and hist is one real path that reaches it.  Printing it for every state gives a
-\* set of paths that covers every reachable state of the model; bin/check keeps the maximal ones and replays
-\* them against the real code.
-ExportInv == Export => PrintT(<<"PATH", ToJson([done |-> Done, steps |-> hist])>>)
+\* distinct (w, obs, ctl) once and hist is one real path that reaches it.  Printing it for every state (ExportAll)
+\* gives a set of paths that covers every reachable state of the model; bin/check keeps the maximal ones and
+\* replays them against the real code.  Large configurations print the finished behaviours only (one per
+\* distinct final state).
+ExportInv == (Export /\ (ExportAll \/ Done)) => PrintT(<<"PATH", ToJson([done |-> Done, steps |-> hist])>>)
 ExportCfg == PrintT(<<"CFG", ToJson(Cfg)>>)
 ASSUME ExportCfg
 
